@@ -169,38 +169,33 @@ Qed.
 
 (* ------------------------------------------------------------------ control-flow guard of WriterStep *)
 Lemma kids_ok_of ks : forall it,
-  adj_ok it ks = true ->
   (forall v, In (IData v) ks -> data_plain v = true) ->
   (forall q a k, In (INode q a k) ks -> item_ok (INode q a k) = true) ->
   kids_ok_with item_ok it ks = true.
 Proof.
-  induction ks as [|k ks IH]; intros it Ha Hd Hn; [reflexivity|].
+  induction ks as [|k ks IH]; intros it Hd Hn; [reflexivity|].
   destruct k as [v|q a kk].
-  - cbn [adj_ok] in Ha. apply andb_true_iff in Ha as [Ha1 Ha2].
-    change (kids_ok_with item_ok it (IData v :: ks))
-      with ((negb it || value_falsy v) && data_plain v && kids_ok_with item_ok true ks).
-    rewrite (Hd v (or_introl eq_refl)), (IH true Ha2).
-    + rewrite andb_true_r, andb_true_r. destruct it; [|reflexivity]. cbn in Ha1 |- *.
-      apply negb_true_iff in Ha1. apply negb_false_iff in Ha1. exact Ha1.
+  - change (kids_ok_with item_ok it (IData v :: ks))
+      with (data_plain v && kids_ok_with item_ok true ks).
+    rewrite (Hd v (or_introl eq_refl)), (IH true); [reflexivity| |].
     + intros v' Hv'. apply Hd. right. exact Hv'.
     + intros q' a' k' H'. apply Hn. right. exact H'.
-  - cbn [adj_ok] in Ha.
-    change (kids_ok_with item_ok it (INode q a kk :: ks))
+  - change (kids_ok_with item_ok it (INode q a kk :: ks))
       with (item_ok (INode q a kk) && kids_ok_with item_ok false ks).
-    rewrite (Hn q a kk (or_introl eq_refl)), (IH false Ha); [reflexivity| |].
+    rewrite (Hn q a kk (or_introl eq_refl)), (IH false); [reflexivity| |].
     + intros v' Hv'. apply Hd. right. exact Hv'.
     + intros q' a' k' H'. apply Hn. right. exact H'.
 Qed.
 
 Lemma item_ok_of t :
-  t_no_adjacent t = true -> t_no_late_qname t = true -> t_names_ok t = true -> item_ok t = true.
+  t_no_late_qname t = true -> t_names_ok t = true -> item_ok t = true.
 Proof.
-  induction t as [v|q ats ks IH] using item_ind2; intros Ha Hl Hn; [reflexivity|].
-  unfold t_no_adjacent, t_no_late_qname, t_names_ok in *. cbn [all_nodes] in Ha, Hl, Hn.
-  apply andb_true_iff in Ha as [Ha Hak]. apply andb_true_iff in Hl as [Hl Hlk]. apply andb_true_iff in Hn as [_ Hnk].
-  rewrite forallb_forall in Hak, Hlk, Hnk. rewrite Forall_forall in IH.
+  induction t as [v|q ats ks IH] using item_ind2; intros Hl Hn; [reflexivity|].
+  unfold t_no_late_qname, t_names_ok in *. cbn [all_nodes] in Hl, Hn.
+  apply andb_true_iff in Hl as [Hl Hlk]. apply andb_true_iff in Hn as [_ Hnk].
+  rewrite forallb_forall in Hlk, Hnk. rewrite Forall_forall in IH.
   assert (Hnodes : forall q' a' k', In (INode q' a' k') ks -> item_ok (INode q' a' k') = true).
-  { intros q' a' k' Hin. apply (IH _ Hin); [exact (Hak _ Hin)|exact (Hlk _ Hin)|exact (Hnk _ Hin)]. }
+  { intros q' a' k' Hin. apply (IH _ Hin); [exact (Hlk _ Hin)|exact (Hnk _ Hin)]. }
   assert (Hdata : forall r, (forall x, In x r -> In x ks) ->
                             forallb (fun k => match k with IData v => negb (has_ns_qname v) | INode _ _ _ => true end) r = true ->
                             forall v, In (IData v) r -> data_plain v = true).
@@ -211,11 +206,10 @@ Proof.
   destruct ks as [|k r].
   - reflexivity.
   - destruct k as [v|qc ac kc].
-    + cbn [adj_ok andb negb] in Ha. cbn [late_ok] in Hl.
-      apply kids_ok_of; [exact Ha| |].
+    + cbn [late_ok] in Hl. apply kids_ok_of.
       * apply (Hdata r); [intros x Hx; right; exact Hx|exact Hl].
       * intros q' a' k' H'. apply Hnodes. right. exact H'.
-    + apply kids_ok_of; [exact Ha| |].
+    + apply kids_ok_of.
       * intros v Hv. destruct Hv as [Hv|Hv]; [discriminate|].
         cbn [late_ok] in Hl. apply (Hdata r); [intros x Hx; right; exact Hx|exact Hl|exact Hv].
       * exact Hnodes.
@@ -231,7 +225,6 @@ Record guard_facts (cfg : wconfig) (user : nsmap) (evs : list wevent) (t : item)
   gf_wf : wf_guard (user_default user) t = true;
   gf_nil : t_nil_ok t = true;
   gf_clark : t_no_clark t = true;
-  gf_adj : t_no_adjacent t = true;
   gf_late : t_no_late_qname t = true;
   gf_dq : match user_default user with Some u => t_default_qname_ok u t = true | None => True end
 }.
@@ -244,12 +237,11 @@ Proof.
   apply andb_true_iff in Hu as [Hleg Hdq].
   apply andb_true_iff in He as [He Hwf]. apply andb_true_iff in He as [He Hck].
   apply andb_true_iff in He as [He Hnil]. apply andb_true_iff in He as [He Hlate].
-  apply andb_true_iff in He as [He Hadj].
   apply andb_true_iff in He as [Hnames Htexts].
   unfold events_wf in Hwf. apply andb_true_iff in Hwf as [Hwn Hpres].
   unfold well_nested_b in Hwn. destruct (doc_tree evs) as [t|] eqn:Et; [|discriminate].
   unfold texts_ok in Htexts. apply andb_true_iff in Htexts as [Htexts Hcfg].
-  unfold names_ok, no_adjacent_data, no_late_qname_data, nil_content_ok,
+  unfold names_ok, no_late_qname_data, nil_content_ok,
     no_clark_datatype_text, on_tree in *. rewrite Et in *.
   exists t. constructor.
   - exact Et.
@@ -260,7 +252,6 @@ Proof.
   - apply wf_guard_of; assumption.
   - exact Hnil.
   - exact Hck.
-  - exact Hadj.
   - exact Hlate.
   - unfold default_qname_ok in Hdq. destruct (user_default user) as [u|]; [|exact I].
     unfold on_tree in Hdq. rewrite Et in Hdq. exact Hdq.
@@ -418,19 +409,19 @@ Proof.
 Qed.
 
 Lemma sguard_of u0 t :
-  wf_guard u0 t = true -> t_nil_ok t = true -> t_no_clark t = true -> t_no_adjacent t = true ->
+  wf_guard u0 t = true -> t_nil_ok t = true -> t_no_clark t = true ->
   t_no_late_qname t = true -> t_dq u0 t = true -> sguard u0 t = true.
 Proof.
-  intros H1 H2 H3 H4 H5 H6. apply dq_node_of in H6.
+  intros H1 H2 H3 H5 H6. apply dq_node_of in H6.
   pose proof (all_nodes_conj _ _ _ _ _ H1 (all_nodes_conj _ _ _ _ _ H2 (all_nodes_conj _ _ _ _ _ H3
-                (all_nodes_conj _ _ _ _ _ H4 (all_nodes_conj _ _ _ _ _ H5 H6))))) as H.
+                (all_nodes_conj _ _ _ _ _ H5 H6)))) as H.
   unfold sguard. revert H. apply all_nodes_impl.
   - intros q ats ks Hn. unfold sg_node.
     apply andb_true_iff in Hn as [Hwf Hn]. apply andb_true_iff in Hn as [Hnil Hn].
-    apply andb_true_iff in Hn as [Hck Hn]. apply andb_true_iff in Hn as [Hadj Hn].
+    apply andb_true_iff in Hn as [Hck Hn].
     apply andb_true_iff in Hn as [Hlate Hdq].
     unfold node_wf in Hwf. apply andb_true_iff in Hwf as [Hq Hats].
-    rewrite Hq, Hnil, Hadj, Hlate, Hdq. rewrite !andb_true_r. cbn [andb].
+    rewrite Hq, Hnil, Hlate, Hdq. rewrite !andb_true_r. cbn [andb].
     apply forallb_forall. intros a Ha. rewrite forallb_forall in Hats, Hck.
     unfold sattr_ok. rewrite (Hats a Ha). cbn [andb]. exact (Hck a Ha).
   - intros v Hv. apply andb_true_iff in Hv as [Hv _]. exact Hv.
@@ -446,9 +437,9 @@ Lemma sg_node_extra u0 q xats ats ks :
 Proof.
   intros Hx Hn Hd Hg. unfold sg_node in *.
   apply andb_true_iff in Hg as [Hg Hdq]. apply andb_true_iff in Hg as [Hg Hlate].
-  apply andb_true_iff in Hg as [Hg Hadj]. apply andb_true_iff in Hg as [Hg Hnil].
+  apply andb_true_iff in Hg as [Hg Hnil].
   apply andb_true_iff in Hg as [Hq Hats].
-  rewrite Hq, Hadj, Hlate. rewrite forallb_app, Hx, Hats. cbn [andb].
+  rewrite Hq, Hlate. rewrite forallb_app, Hx, Hats. cbn [andb].
   unfold dq_node in *. apply andb_true_iff in Hdq as [Hd1 Hd2]. rewrite forallb_app, Hd, Hd1, Hd2. cbn [andb].
   rewrite !andb_true_r. unfold nil_ok in *. rewrite has_nil_app, Hn. exact Hnil.
 Qed.
@@ -465,7 +456,7 @@ Proof.
   destruct (cfg_xats_ok cfg user (gf_cfg _ _ _ _ F)) as [X1 [X2 [X3 X4]]].
   assert (Hdq : t_dq (user_default user) (INode q ats ks) = true).
   { unfold t_dq. pose proof (gf_dq _ _ _ _ F) as H. destruct (user_default user); [exact H|reflexivity]. }
-  pose proof (sguard_of _ _ (gf_wf _ _ _ _ F) (gf_nil _ _ _ _ F) (gf_clark _ _ _ _ F) (gf_adj _ _ _ _ F)
+  pose proof (sguard_of _ _ (gf_wf _ _ _ _ F) (gf_nil _ _ _ _ F) (gf_clark _ _ _ _ F)
                 (gf_late _ _ _ _ F) Hdq) as Hs.
   cbn [sguard all_nodes] in Hs |- *. apply andb_true_iff in Hs as [Hn Hk].
   split.
